@@ -449,7 +449,8 @@ def r07_4(ctx: Ctx):
                     if src is not None and src.rsplit(".", 1)[-1] in ("_levels", "levels", "leaves", "_children", "children"):
                         adefs = local_defs(f).get(holder.id, [])
                         one_level = len(adefs) == 1 and isinstance(adefs[0], ast.Subscript) and not isinstance(adefs[0].slice, ast.Slice) and isinstance(adefs[0].value, ast.Attribute) and adefs[0].value.attr == "_levels" and is_self_attr(adefs[0].value, "_levels", f.self_name() or "self") and holder is n.func.value
-                        if one_level and f.cls is tree and f.name in ("__init__", "_do_sprout") and n.func.attr == "append":
+                        whole = len(adefs) == 1 and isinstance(adefs[0], ast.Attribute) and is_self_attr(adefs[0], "_levels", f.self_name() or "self") and isinstance(n.func.value, ast.Subscript) and not isinstance(n.func.value.slice, ast.Slice) and n.func.value.value is holder
+                        if (one_level or whole) and f.cls is tree and f.name in ("__init__", "_do_sprout") and n.func.attr == "append":
                             # a local name for one level's list: the same tabled growth site as self._levels[k].append(child)
                             obs.append(ctx.ob("R07.4", f, n, detail="a level grows by append in DemeTree.__init__/_do_sprout (through a local name for that level's list)"))
                             continue
